@@ -883,6 +883,118 @@ def oracle_mlk(c, o):
     return out
 
 
+
+# --------------------------------------------------------------------------- ReplicatedStore
+RS_IMPORTS = "From HS Require Import Base.Prelude C17.Model C17.RS."
+RS_TYPE = "(nat * level * level * list Z * list Z) * list rseg"
+LEVELS = {"one": "L_ONE", "quorum": "L_QUORUM", "all": "L_ALL"}
+
+
+def gen_rs(rng):
+    n = rng.choice([1, 2, 3, 3, 4])
+    nkeys = rng.choice([1, 2, 3])
+    ops, t = [], 0
+    for i in range(rng.randint(1, 8)):
+        t += rng.choice([0, 0, 500, 1000, 2000, 6000])
+        if rng.random() < 0.6:
+            ops.append([t, "P", rng.randrange(nkeys), 100 + i])
+        else:
+            ops.append([t, "G", rng.randrange(nkeys), 100 + i])
+    same = rng.random() < 0.5
+    return dict(n=n, read=rng.choice(list(LEVELS)), write=rng.choice(list(LEVELS)), ops=ops,
+                wlat=[2000 if same else rng.choice([500, 1000, 2000, 4000]) for _ in range(n)],
+                rlat=[rng.choice([500, 1500]) for _ in range(n)])
+
+
+def impl_rs(c):
+    from happysimulator import Event, Instant, Simulation
+    from happysimulator.components.datastore.replicated_store import ConsistencyLevel, ReplicatedStore
+    from happysimulator.core.entity import Entity
+    from hsverif.util import run_bounded
+
+    n = c["n"]
+    reps = [_logged_store(f"r{i}", c["wlat"][i], c["rlat"][i]) for i in range(n)]
+    rs = ReplicatedStore("rs", replicas=reps, read_consistency=ConsistencyLevel(c["read"]),
+                         write_consistency=ConsistencyLevel(c["write"]))
+    acks, gets = [], []
+
+    def logs():
+        return [[(kid(k), v) for k, v in r.put_log] for r in reps]
+
+    class Client(Entity):
+        def handle_event(self, event):
+            md = event.context["metadata"]
+            if md["op"] == "P":
+                ok = yield from rs.put(md["key"], md["value"])
+                tr.emit(["Put", md["wid"], bool(ok)])
+                acks.append(dict(wid=md["wid"], key=kid(md["key"]), ok=bool(ok), logs=logs()))
+            else:
+                v = yield from rs.get(md["key"])
+                tr.emit(["Get", md["wid"], v])
+                gets.append(dict(rid=md["wid"], key=kid(md["key"]), value=v))
+
+    def describe_in(node, idx, ev):
+        md = ev.context["metadata"]
+        return ["P", md["wid"], kid(md["key"]), md["value"]] if md["op"] == "P" else ["G", md["wid"], kid(md["key"])]
+
+    def snapshot(node, idx):
+        st = rs.stats
+        return [[store_items(r) for r in reps], [st.reads, st.writes, st.read_successes, st.write_successes]]
+
+    tr = Tracer(describe_in, lambda node, idx, ev: ["?"], snapshot)
+    client = Client("client")
+    tr.wrap(client, 0)
+    sim = Simulation(start_time=Instant.Epoch, entities=[client, rs, *reps])
+    for (t, op, key, wid) in c["ops"]:
+        md = {"op": op, "key": f"k{key}", "wid": wid, "value": wid}
+        sim.schedule(Event(time=Instant.from_seconds(t / US), event_type="Op", target=client, context={"metadata": md}))
+    _, verdict = run_bounded(sim, wall_s=20.0)
+    prev = [[[] for _ in range(n)], [0, 0, 0, 0]]
+    for s in tr.segs:
+        if s["obs"] is None:
+            s["obs"] = prev
+        prev = s["obs"]
+    return dict(segs=tr.segs, verdict=verdict, acks=acks, gets=gets, final=[store_items(r) for r in reps], failures=rs.stats.write_failures + rs.stats.read_failures)
+
+
+def encode_rs(c, o):
+    segs = []
+    for s in o["segs"]:
+        i = s["inp"]
+        if i[0] == "R":
+            inp = Ctor("RResume", i[1])
+        elif i[2][0] == "P":
+            inp = Ctor("RPutStart", i[2][1], i[2][2], i[2][3])
+        else:
+            inp = Ctor("RGetStart", i[2][1], i[2][2])
+        outs = [Ctor("ROPut", x[1], x[2]) if x[0] == "Put" else Ctor("ROGet", x[1], None if x[2] is None else SomeV(x[2])) for x in s["outs"]]
+        ob = s["obs"]
+        segs.append((inp, outs, yld_term(s["y"]), ([[tuple(kv) for kv in rep] for rep in ob[0]], list(ob[1]))))
+    return term(((Nat(c["n"]), Ctor(LEVELS[c["read"]]), Ctor(LEVELS[c["write"]]), c["wlat"], c["rlat"]), segs))
+
+
+def oracle_rs(c, o):
+    out = []
+    if o["verdict"] != "ok":
+        return [dict(clause="simulation terminates", verdict=o["verdict"])]
+    puts = {op[3]: op for op in c["ops"] if op[1] == "P"}
+    for a in o["acks"]:
+        has = [(a["key"], a["wid"]) in [tuple(x) for x in lg] for lg in a["logs"]]
+        if not a["ok"] or not all(has):
+            out.append(dict(clause="replicated store: an acknowledged put is applied on every replica", wid=a["wid"], ok=a["ok"], applied=has))
+    if len(o["acks"]) != len(puts):
+        out.append(dict(clause="replicated store: every put returns", returned=len(o["acks"]), puts=len(puts)))
+    fin = [dict(tuple(x) for x in f) for f in o["final"]]
+    if any(f != fin[0] for f in fin):
+        out.append(dict(clause="replicated store: all replicas hold the same value for every key once the puts have finished", final=fin))
+    for g in o["gets"]:
+        if g["value"] is not None and not any(op[2] == g["key"] and wid == g["value"] for wid, op in puts.items()):
+            out.append(dict(clause="replicated store: a get returns a value that was put under that key", get=g))
+    if o["failures"]:
+        out.append(dict(clause="replicated store: no operation fails when every replica answers", failures=o["failures"]))
+    return out
+
+
 def nontrivial_chain(c, o):
     ks = [op[3] for op in c["ops"] if op[1] == "W" and op[2] == 0]
     return len(ks) != len(set(ks))
@@ -897,6 +1009,9 @@ FAMILIES = [
     Family("mlk", ML_IMPORTS, "ok_ml_kernel", "ver * ver * (bool * bool * Z * Z)", gen_mlk, impl_mlk,
            lambda c, o: term((ver_term(c["a"]), ver_term(c["b"]), (o["dab"], o["dba"], o["lww"], o["merge"]))),
            oracle_mlk, lambda c, o: o["dab"] or o["dba"]),
+    Family("rs", RS_IMPORTS, "ok_rs", RS_TYPE, gen_rs, impl_rs, encode_rs, oracle_rs,
+           lambda c, o: len({op[2] for op in c["ops"] if op[1] == "P"}) < sum(1 for op in c["ops"] if op[1] == "P"),
+           parallel=True, describe=lambda c: f"n={c['n']},{c['read']}/{c['write']}"),
 ]
 
 TRUSTED = [
@@ -925,8 +1040,8 @@ class _Sharded:
 
 
 def run(ctx):
-    ctx.prove(["C17/Model.v", "C17/PBProofs.v", "C17/PBConv.v", "C17/Chain.v", "C17/ChainProofs.v", "C17/ChainConv.v", "C17/ML.v", "C17/MLProofs.v", "C17/Props.v"], allowed_axioms=(), trusted_base=TRUSTED)
-    n = ctx.n(60, 1500)
+    ctx.prove(["C17/Model.v", "C17/PBProofs.v", "C17/PBConv.v", "C17/Chain.v", "C17/ChainProofs.v", "C17/ChainConv.v", "C17/PBFifo.v", "C17/ML.v", "C17/MLProofs.v", "C17/RS.v", "C17/Props.v"], allowed_axioms=(), trusted_base=TRUSTED)
+    n = ctx.n(40, 400)
     for fam in FAMILIES:
         fam.parallel = fam.parallel and not ctx.quick      # quick: a worker pool costs more than it saves
     stats = [run_family(_Sharded(ctx, fam.name), fam, n * 3 if fam.name == "mlk" else n) for fam in FAMILIES]
